@@ -101,7 +101,7 @@ class Prop(PropBase):
     id = 'C18'
     coq_imports = ['PV.Model.Parsers', 'PV.Model.Cli']
     props_file = 'theories/Props/C18.v'
-    n_cases = {'quick': 1200, 'thorough': 30000}
+    n_cases = {'quick': 1200, 'thorough': 12000}
     rule = ('cases = (a) a built-in parser module called on None / [] / a list of tokens built from '
             'keys and values with "=", blanks, quotes, unicode, empty strings and duplicates (json: '
             'rendered objects with random whitespace and duplicate keys, malformed texts, non-objects); '
